@@ -778,6 +778,12 @@ func (s *State) GetReverseStateDiff(
 			value := felt.Zero
 			if blockNumber > 0 {
 				oldValue, err := s.ContractStorageAt(&addr, &key, blockNumber-1)
+				if errors.Is(err, ErrCheckHeadState) {
+					// No history entry at or after blockNumber: the slot was not changed by
+					// this block (e.g. a zero write to a slot that was never set), so the
+					// value before the block is the current head value.
+					oldValue, err = s.ContractStorage(&addr, &key)
+				}
 				if err != nil {
 					return core.StateDiff{}, err
 				}
